@@ -148,13 +148,15 @@ def main(argv=None):
         violations += r["violations"]
 
     # 4. when something no longer checks, widen the search for a concrete failing input
-    if problems and not violations and driver_ok:
+    # (violations that are listed known findings do not count: they say nothing about what broke)
+    known0 = core.load_known(pid)
+    if problems and not [v for v in violations if not core.matches_known(v, known0)] and driver_ok:
         log("obligation/correspondence broken; widening monitor search")
         for eng in cfg.get("engines", []):
             e2 = dict(eng, search_mult=10 if tier == "quick" else 50, n=(1, 1))
             r = engine_run(pid, e2, tier, seed + 7919, tmp)
             violations += r["violations"]
-            if violations:
+            if [v for v in r["violations"] if not core.matches_known(v, known0)]:
                 break
 
     known = core.load_known(pid)
